@@ -307,7 +307,7 @@ TwoOK(e) ==
                IN /\ e.r.n = n
                   /\ ToSet(e.r.vals) = fr
                   /\ FormFn(e.k, n, e.r.cubes) = fr
-                  /\ e.k = "sop" => Irredundant(DCs(e.r.cubes)))
+                  /\ e.k = "sop" => IrredundantLong(DCs(e.r.cubes)))
     [] e.op = "t_not" ->
          (CASE e.k = "ecube" -> DE(e.r) = EcubeNot(DE(e.av))
             [] OTHER ->
@@ -316,7 +316,7 @@ TwoOK(e) ==
                IN /\ e.r.n = n
                   /\ ToSet(e.r.vals) = fr
                   /\ FormFn(e.k, n, e.r.cubes) = fr
-                  /\ e.k = "sop" => Irredundant(DCs(e.r.cubes)))
+                  /\ e.k = "sop" => IrredundantLong(DCs(e.r.cubes)))
     [] e.op = "t_rel" ->
          (CASE e.k = "cube" ->
                  LET a == DC(e.av)
@@ -384,7 +384,15 @@ OptVerdict(e) ==
   IN IF Len(e.r) # Len(e.fs) THEN Bad("wrong number of forms")
      ELSE IF ~(nodup /\ own /\ sound) THEN Bad("form does not denote its function")
      ELSE LET cost == SolutionCost(sol, e.andc, e.xorc, e.orc, isEsop)
-              opt == CASE e.kind = "sop" -> OptSop(n, fs, e.andc, e.orc)
+              \* k copies of one function: one form serves every copy at least as cheaply as different forms
+              \* would (the union of their terms costs no less, and the cheaper-to-join form can be used k times), so the
+              \* optimum is the single-output optimum with the join gate paid k times
+              copies == Len(e.fs) >= 2 /\ \A j \in 1..Len(e.fs) : fs[j] = fs[1]
+              k == Len(e.fs)
+              opt == CASE copies /\ e.kind = "sop" -> OrOpt(n, <<fs[1]>>, CubeCands(n, e.andc), k * e.orc)
+                       [] copies /\ e.kind = "sopes" -> OrOpt(n, <<fs[1]>>, CubeCands(n, e.andc) \cup EcubeCands(n, e.xorc), k * e.orc)
+                       [] copies /\ e.kind = "esop" -> XorOpt(n, <<fs[1]>>, CubeCands(n, e.andc), k * e.xorc)
+                       [] e.kind = "sop" -> OptSop(n, fs, e.andc, e.orc)
                        [] e.kind = "sopes" -> OptSopes(n, fs, e.andc, e.xorc, e.orc)
                        [] e.kind = "esop" -> OptEsop(n, fs, e.andc, e.xorc)
           IN IF cost = opt THEN Good(slots, it)
